@@ -297,7 +297,23 @@ func c13RunScenario(t *testing.T, repoDir string, sc c13Script) c13Obs {
 				defer wg.Done()
 				select {
 				case <-time.After(time.Duration(sc.RemoveAt) * time.Millisecond):
-					c12ClearLocksC13(s.lockDir)
+					if sc.RemoveOldOnly {
+						s.mu.Lock()
+						newest := int64(-1 << 62)
+						for _, ft := range s.ftimes {
+							if ft > newest {
+								newest = ft
+							}
+						}
+						for name, ft := range s.ftimes {
+							if ft < newest {
+								_ = os.Remove(filepath.Join(s.lockDir, name))
+							}
+						}
+						s.mu.Unlock()
+					} else {
+						c12ClearLocksC13(s.lockDir)
+					}
 					s.rec("ext-remove")
 				case <-lctx.Done():
 				}
@@ -401,7 +417,7 @@ func c13Scripts(c *vctx) []c13Script {
 		{Kind: "ext-remove-fail", FailFrom: iv + iv/2, FailUntil: -1, SlowFrom: -1, RemoveAt: 1000000, UnlockAt: -1, End: 70 * min},
 		{Kind: "ext-remove-forced", FailFrom: iv + iv/2, FailUntil: iv + R - 50000, SlowFrom: -1, RemoveAt: 1000000, UnlockAt: -1, End: 70 * min},
 		// the old lock vanishes during the wait inside the forced refresh (between the two existence checks)
-		{Kind: "ext-remove-during-forced", FailFrom: iv + iv/2, FailUntil: iv + R - 50000, SlowFrom: -1, RemoveAt: iv + R + 100, UnlockAt: -1, End: 70 * min},
+		{Kind: "ext-remove-during-forced", FailFrom: iv + iv/2, FailUntil: iv + R - 50000, SlowFrom: -1, RemoveAt: iv + R + 100, RemoveOldOnly: true, UnlockAt: -1, End: 70 * min},
 		{Kind: "ext-remove", FailFrom: -1, FailUntil: -1, SlowFrom: -1, RemoveAt: 1000000, UnlockAt: 40 * min, End: 70 * min},
 		{Kind: "op-delay", FailFrom: 3*iv + 1, FailUntil: -1, SlowFrom: -1, OpDelay: 20000, RemoveAt: -1, UnlockAt: -1, End: 70 * min},
 		{Kind: "transient", FailFrom: 2*iv - 1000, FailUntil: 2*iv + 40000, SlowFrom: -1, RemoveAt: -1, UnlockAt: 30 * min, End: 70 * min, Transient: true},
